@@ -6,6 +6,7 @@ mod rng;
 mod refimpl;
 mod gen;
 mod p03;
+mod p04;
 mod p05;
 mod p17;
 mod p18;
@@ -71,6 +72,7 @@ fn main() {
     let mut c = Ctx::new(&prop, tier, seed, shard, nshards, scale, &mode, time_limit, replay, out);
     match prop.as_str() {
         "C03" => p03::run(&mut c),
+        "C04" => p04::run(&mut c),
         "C05" => p05::run(&mut c),
         "C17" => p17::run(&mut c),
         "C18" => p18::run(&mut c),
